@@ -1131,6 +1131,7 @@ func c13EvalPatch(c *Ctx, raw []byte) {
 	}
 	c.Direct("patch-op-has-exactly-the-effect-of-patch.Do", tagA == tagB && canon(afterA) == canon(afterB),
 		map[string]any{"PatchOp": map[string]any{"out": tagA, "text": txtA, "data": afterA}, "patch.Do": map[string]any{"out": tagB, "data": afterB}})
+	c13PatchRFC(c, &p, seen, valueWire, tagA, afterA) // ... and of the RFC 6902 operation itself (c13_patch.go)
 	// a later edit inside the subtree placed through valueFrom does not show at its source
 	if p.Value == nil && p.ValueFrom != nil && tagA == "ok" && (p.Op == "add" || p.Op == "replace") {
 		src, sok := c13WireAt(p.Data, *p.ValueFrom)
